@@ -371,12 +371,12 @@ _reanchor("c12-strip-all-metadata",
 _reanchor("c16-skip-equal", "        return bool(old != new)\n",
           "        return bool(str(old) != str(new))\n")
 _reanchor("c04-scope-leak", """        self._ignore_stack.append([x.arg for x in named])
-        v = super().generic_visit(node)
+        node.body = self.visit(node.body)
         self._ignore_stack.pop()
-        return v
+        return node
 """, """        self._ignore_stack.append([x.arg for x in named])
-        v = super().generic_visit(node)
-        return v
+        node.body = self.visit(node.body)
+        return node
 """)
 _reanchor("c04-comprehension", """    visit_DictComp = _visit_comprehension
 
@@ -387,6 +387,23 @@ _reanchor("c04-comprehension", """    visit_DictComp = _visit_comprehension
 
     def visit_Call(self, node: ast.Call) -> Any:
         "If the rewritten call turns into an actual function, then we have to bail,\"""")
+
+
+M.append({"id": "c04-default-in-inner-scope", "prop": "C04",
+          "what": "parameter defaults of a nested lambda are visited with the parameters already hidden (reverts the F28 repair)",
+          "file": "func_adl/util_ast.py",
+          "old": """        a.defaults = [self.visit(d) for d in a.defaults]
+        a.kw_defaults = [d if d is None else self.visit(d) for d in a.kw_defaults]
+        # Every kind of parameter hides a captured variable of the same name
+        named = a.posonlyargs + a.args + a.kwonlyargs + [x for x in (a.vararg, a.kwarg) if x]
+        self._ignore_stack.append([x.arg for x in named])
+""",
+          "new": """        # Every kind of parameter hides a captured variable of the same name
+        named = a.posonlyargs + a.args + a.kwonlyargs + [x for x in (a.vararg, a.kwarg) if x]
+        self._ignore_stack.append([x.arg for x in named])
+        a.defaults = [self.visit(d) for d in a.defaults]
+        a.kw_defaults = [d if d is None else self.visit(d) for d in a.kw_defaults]
+"""})
 
 
 def main():
